@@ -23,7 +23,8 @@ def _sig(kind, params):
 # ------------------------------------------------------------------ (A) pregroup
 
 VOCAB = {"Alice": ("n",), "loves": ("n.r", "s", "n.l"), "runs": ("n.r", "s"), "that": ("n.r", "n", "s.l", "n"),
-         "not": ("s.l", "s"), "who": ("n.r", "n", "s.l.l", "s.l"), "nl": ("n.l",), "nrr": ("n.r.r",), "e": ()}
+         "not": ("s.l", "s"), "who": ("n.r", "n", "s.l.l", "s.l"), "nl": ("n.l",), "nrr": ("n.r.r",), "e": (),
+         "sr": ("s.r",), "sl": ("s.l",)}
 
 
 def word(name):
@@ -77,8 +78,12 @@ def check_parse(params):
     words, target = list(params["words"]), list(params["target"])
     k = build.kit("rigid")
     out = []
+    tgt = k.ty(target)
+    if params.get("plain"):      # the target given as a plain monoidal type (what discopy.grammar.cfg exports)
+        from discopy import monoidal
+        tgt = monoidal.Ty(*target)
     try:
-        d = eager_parse(*[word(w) for w in words], target=k.ty(target))
+        d = eager_parse(*[word(w) for w in words], target=tgt)
     except NotImplementedError:
         params["_noparse"] = True
         return out
@@ -96,7 +101,11 @@ def check_brute(params):
     vocab, target, k_yield = list(params["vocab"]), list(params["target"]), params["n"]
     k = build.kit("rigid")
     out = []
-    gen = brute_force(*[word(w) for w in vocab], target=k.ty(target))
+    tgt = k.ty(target)
+    if params.get("plain"):
+        from discopy import monoidal
+        tgt = monoidal.Ty(*target)
+    gen = brute_force(*[word(w) for w in vocab], target=tgt)
     for t, d in enumerate(itertools.islice(gen, k_yield)):
         words = [str(b.name) for b in d.boxes if str(b.name) in VOCAB and type(b).__name__ == "Word"]
         if any(w not in vocab for w in words):
@@ -119,12 +128,19 @@ GRAMMARS = {
     "rec": [("S", ("A", "S")), ("S", ()), ("A", ())],
     "dead": [("S", ("A",)), ("S", ("D",)), ("A", ()), ("D", ("D", "X"))],
     "words": [("S", ("N", "V")), ("N", ()), ("N", ("J", "N")), ("J", ()), ("V", ()), ("V", ("V", "N"))],
+    "rigid": [("s", ("n", "v")), ("n", ()), ("n.r", ("x",)), ("x", ()), ("v", ()), ("v.l", ("n",)), ("s.r", ())],
 }
 
 
 def productions(name):
     from discopy.monoidal import Ty, Box
     prods = []
+    if name.startswith("rigid"):     # symbols are rigid atoms ('n.r' is not 'n'); the start symbol stays a plain Ty
+        from discopy import rigid
+        k = build.kit("rigid")
+        for i, (lhs, rhs) in enumerate(GRAMMARS[name]):
+            prods.append(rigid.Box("p%d:%s->%s" % (i, lhs, "".join(rhs) or "e"), k.ty(list(rhs)), k.ty([lhs])))
+        return prods
     for i, (lhs, rhs) in enumerate(GRAMMARS[name]):
         prods.append(Box("p%d:%s->%s" % (i, lhs, "".join(rhs) or "e"), Ty(*rhs), Ty(lhs)))
     return prods
@@ -313,6 +329,16 @@ def box_exprs(quick):
         for n in (1, 2):
             for left in (False, True):
                 out.append("Curry(Box('g', %s, y), %d, %s)" % (dom, n, left))
+    # composition rules whose two middle types differ (also only in a nested argument or result):
+    # refused, or -- if a constructor accepts it -- still translated type-correctly
+    mids = ["y", "(y << x)", "(y << z)", "(x << y)", "(y >> x)", "(y >> z)", "(z >> x)", "((y << x) << z)", "((y << z) << z)"]
+    for m1 in mids:
+        for m2 in mids:
+            if m1 != m2:
+                out.append("FC(x << %s, %s << z)" % (m1, m2))
+                out.append("BC(x >> %s, %s >> z)" % (m1, m2))
+                out.append("FX(x << %s, z >> %s)" % (m1, m2))
+                out.append("BX(%s << x, %s >> z)" % (m1, m2))
     # generic boxes and CCG words, with empty and non-empty domains, over the type menu
     menu = ["Ty()", "x", "(x @ y)", "(x << y)", "(y >> x)", "((x << y) << y)", "(x << y) @ y", "(y >> (x << y))"]
     for cod in menu:
@@ -539,6 +565,9 @@ def run(ctx):
                 if n == 4 and hash_mod((ws, target), 3):
                     continue
                 items.append(("parse", dict(words=list(ws), target=list(target))))
+                if n <= 2:
+                    items.append(("parse", dict(words=list(ws), target=list(target), plain=True)))
+    items.append(("brute", dict(vocab=["Alice", "runs", "sr", "e"], target=["s"], n=2, plain=True)))
     # (vocabulary, target, number of yields known to exist: brute_force never ends and only yields
     # successful parses, so asking for more than there are would not terminate)
     for vocab, target, n in ((["Alice", "runs"], ("s",), 1), (["Alice", "loves"], ("s",), 1),
@@ -554,7 +583,9 @@ def run(ctx):
                     limits.append(dict(max_sentences=ms, max_depth=md, max_iter=mi, remove_duplicates=rd))
     for g in sorted(GRAMMARS):
         starts = sorted({lhs for lhs, _ in GRAMMARS[g]})
-        for start in starts[:2] if ctx.quick else starts:
+        if g.startswith("rigid"):
+            starts = ["s", "n", "v"]        # plain start symbols; 's.r', 'n.r', 'v.l' are other symbols
+        for start in starts[:2] if ctx.quick and not g.startswith("rigid") else starts:
             for kw in limits:
                 items.append(("cfg", dict(grammar=g, start=start, kwargs=kw)))
             items.append(("cfg", dict(grammar=g, start=start, kwargs=dict(
